@@ -187,7 +187,7 @@ func checkC19(r *Run) {
 	r.NotDecided = "Values computed by compiled programs (this is not an execution of any program): evaluation order, precedence/associativity of the parser, stateful variables, host math functions, wasm validation of whole modules, the no-crash clause for arbitrary source text."
 	r.Trusted = []string{"go/types constant evaluation", "go/cfg", "the WebAssembly 1.0 numeric instruction table embedded in the checker", "arc/docs/spec.md cast rules as transcribed in the rule texts"}
 	r.Extra["module"] = "arc/go"
-	p, err := Load("arc/go", "./compiler/...", "./types/...")
+	p, err := Load("arc/go", "./compiler/...", "./types/...", "./stl/stateful/...")
 	if err != nil {
 		r.Undecide("%v", err)
 		return
@@ -203,6 +203,7 @@ func checkC19(r *Run) {
 	r.Rule("C19.R8.saturate", "a float -> integer cast saturates instead of trapping", 2)
 	r.Rule("C19.R9.signsat", "a signed <-> unsigned integer cast whose source range exceeds the target range saturates at the target's bounds", 2)
 	r.Rule("C19.R10.logic", "in the 'or'/'and' lowering every operand compile is followed by normalizeBoolean (value != 0) before the join; the short-circuit arm pushes 1 for 'or' and 0 for 'and'", 6)
+	r.Rule("C19.R14.presence", "the stateful-variable host functions decide 'stored value or initialiser' by the presence of the slot (comma-ok), never by comparing the looked-up value with zero", 5)
 	r.Rule("C19.R13.locals", "compiler.collectLocals lists local types in the order symbol.Add numbered them (one pre-order pass), for the same set of symbol kinds", 2)
 	r.Rule("C19.R12.bound", "every local the emitted loop header and increment read is a hidden '__for_*' local or a loop variable, resolved once from the loop scope (range bounds are fixed on loop entry)", 10)
 	r.Rule("C19.R11.depth", "at every nested statement compilation the context's block depth equals the number of open emitted blocks; LoopEntry.BreakDepth names a 'block', ContinueDepth a 'block' or 'loop' strictly inside it, both read when they name the innermost open block", 12)
@@ -232,6 +233,63 @@ func checkC19(r *Run) {
 	c.checkDepth()
 	c.checkLoopHeaderReads()
 	c.checkLocalsOrder()
+	c.checkStatePresence()
+}
+
+// checkStatePresence decides C19.R14: a stateful variable is "already initialised" when
+// its slot exists, not when its value is non-zero. In stl/stateful every lookup of a
+// state map that decides between the stored value and the initialiser uses the comma-ok
+// form; a test of the looked-up value against zero re-applies the initialiser whenever
+// the stored value is 0.
+func (c *c19) checkStatePresence() {
+	const pkg = "arc/stl/stateful"
+	if c.p.Pkg(pkg) == nil {
+		c.r.Undecide("C19.R14: package %s not loaded", pkg)
+		return
+	}
+	n := 0
+	for _, fn := range c.p.FuncsOfPkg(pkg) {
+		if fn.Body == nil {
+			continue
+		}
+		inspectNoLit(fn.Body, func(x ast.Node) bool {
+			ifs, ok := x.(*ast.IfStmt)
+			if !ok || ifs.Init == nil {
+				return true
+			}
+			as, ok := ifs.Init.(*ast.AssignStmt)
+			if !ok || len(as.Rhs) != 1 {
+				return true
+			}
+			ix, ok := ast.Unparen(as.Rhs[0]).(*ast.IndexExpr)
+			if !ok {
+				return true
+			}
+			tv, ok := fn.Pkg.TypesInfo.Types[ix.X]
+			if !ok {
+				return true
+			}
+			if _, isMap := tv.Type.Underlying().(*types.Map); !isMap {
+				return true
+			}
+			n++
+			commaOK := len(as.Lhs) == 2
+			if commaOK {
+				if o := objOf(fn, as.Lhs[1]); o == nil || objOf(fn, ifs.Cond) != o {
+					// the condition must be the ok flag itself (possibly negated elsewhere)
+					if u, isNot := ast.Unparen(ifs.Cond).(*ast.UnaryExpr); !isNot || objOf(fn, u.X) != o {
+						commaOK = false
+					}
+				}
+			}
+			c.r.Ob("C19.R14.presence", fmt.Sprintf("state lookup #%d in %s decides by presence", n, fn.Name), posOf(c.p, ifs), commaOK,
+				"the branch is chosen by "+types.ExprString(ifs.Cond)+" instead of the comma-ok flag of the map lookup: a stored zero reads as 'never initialised' and the initialiser is applied again")
+			return true
+		})
+	}
+	if n < 5 {
+		c.r.Undecide("C19.R14: only %d map lookups in if-initialisers found in %s (expected >= 5)", n, pkg)
+	}
 }
 
 // checkLocalsOrder decides C19.R13: symbol.Scope.Add numbers variables from one
